@@ -25,7 +25,8 @@ def akai_payload():
                 {"name": "FRAG", "n": 6000, "chain": [6, 4], "seq": 1},
                 {"name": "NEXT", "n": 5000, "chain": [5, 7], "seq": 2},
                 {"name": "PAD-L", "n": 4100, "chain": [9, 8], "seq": 3},
-                {"name": "PAD-R", "n": 4100, "chain": [10, 11], "seq": 4}]},
+                {"name": "PAD-R", "n": 4100, "chain": [10, 11], "seq": 4},
+                {"name": "CONT", "n": 12000, "chain": [14, 15, 16], "seq": 8}]},
             {"name": "VOL2", "dir": [12], "files": [{"name": "OTHER", "n": 300, "chain": [13], "seq": 5}]}]},
         {"vols": [
             {"name": "VOLB", "dir": [4], "files": [
@@ -37,11 +38,12 @@ def akai_payload():
 def roland_payload():
     samples = {0: {"name": "FWD", "chain": [3, 2], "points": [5, 5, 6000, 5, 6000], "mode": 2, "seq": 1},
                1: {"name": "REV", "chain": [4, 6], "points": [0, 0, 5999, 0, 5999], "mode": 5, "seq": 2},
-               2: {"name": "ELSE", "chain": [5], "points": [0, 0, 99, 0, 99], "mode": 0, "seq": 3}}
+               2: {"name": "ELSE", "chain": [5], "points": [0, 0, 99, 0, 99], "mode": 0, "seq": 3},
+               3: {"name": "CONT", "chain": [7, 8, 9], "points": [0, 0, 13000, 0, 13000], "mode": 2, "seq": 4}}
     model = {"volumes": [{"name": "VOL", "perfs": [0, 1]}],
              "performances": {0: {"name": "PERF0", "patches": [0]}, 1: {"name": "PERF1", "patches": [1]}},
              "patches": {0: {"name": "PATCH0", "partials": [0]}, 1: {"name": "PATCH1", "partials": [1]}},
-             "partials": {0: {"name": "PART0", "samples": [0, 1]}, 1: {"name": "PART1", "samples": [2]}},
+             "partials": {0: {"name": "PART0", "samples": [0, 1, 3]}, 1: {"name": "PART1", "samples": [2]}},
              "samples": samples}
     return R.build_roland(model)[0]
 
@@ -189,6 +191,14 @@ def configs(quick):
         out.append({"name": kind + ":stereo+stream+dir", "kind": kind, "parts": [
             {"path": ["A:", "VOL1", "PAD-L"], "path2": ["A:", "VOL1", "PAD-R"], "ops": [["next"], ["next"], ["next"]], "stepwise": True},
             P(A1, ("read", 4096), ("read", S + 1)), D1]})
+        # reads that end exactly on a sector boundary and continue in the physically adjacent sector (contiguous file)
+        AC = ("A:", "VOL1", "CONT")
+        out.append({"name": kind + ":aligned", "kind": kind, "parts": [
+            P(AC, ("seek", S - 140), ("read", S), ("read", S)), P(A2, ("read", 4096), ("read", 4096)),
+            {"path": [], "ops": [["ls", "A:/VOL2/OTHER"]], "stepwise": True}]})
+        out.append({"name": kind + ":aligned-blocks", "kind": kind, "parts": [
+            P(AC, ("seek", S - 140 - 4096), ("read", 4096), ("read", 4096), ("read", 4096)),
+            P(A1, ("seek", 2 * S - 140 - 2048), ("read", 2048), ("read", 2048))]})
         if not quick:
             for sizes in itertools.product([1, 2, 4096, S - 1, S + 1], repeat=2):
                 out.append({"name": f"{kind}:3x3:{sizes}", "kind": kind, "parts": [
@@ -202,6 +212,10 @@ def configs(quick):
         {"path": [], "ops": [["ls", "VOL/PERF1"]], "stepwise": True}]})
     out.append({"name": "roland:3x2", "kind": "roland", "parts": [
         P(R0, ("seek", 2), ("read", CL + 1)), P(R1, ("read", 2), ("read", 4096)), P(R2, ("read", 1), ("read", 4096))]})
+    R3 = ("VOL", "PERF0", "CONT")
+    out.append({"name": "roland:aligned", "kind": "roland", "parts": [
+        P(R3, ("read", CL), ("read", CL), ("read", 4096)), P(R0, ("read", 4096), ("read", 4096)),
+        {"path": [], "ops": [["ls", "VOL/PERF1"]], "stepwise": True}]})
     T1, T2, T3 = ("ONE",), ("TWO",), ("THREE",)
     out.append({"name": "cdda:3x2", "kind": "cdda", "parts": [
         P(T1, ("read", 4096), ("read", 2352 + 1)), P(T2, ("read", 1), ("read", 4096)), P(T3, ("seek", 2352), ("read", 4096))]})
@@ -217,7 +231,8 @@ class Check(CheckBase):
     rule = ("per configuration (AKAI raw and inside MODE1/2352: two files of one partition, one fragmented, one file of a "
             "second partition, an L/R pair through the transcoder, lazy directory listings; Roland: forward + reverse-mode "
             "sample + listing of another performance; CDDA: three tracks): ALL interleavings of the participants' call programs "
-            "(block reads of 1, 2, 4096, sector-1, sector+1 bytes, absolute seeks, ls of unrealised directories, transcoder "
+            "(block reads of 1, 2, 4096, sector-1, sector+1 bytes, sector-aligned reads of a contiguous file that end "
+            "exactly on a sector boundary, absolute seeks, ls of unrealised directories, transcoder "
             "steps) on one fresh image object per schedule; thorough adds 3x3-step programs over all 25 block-size pairs. "
             "Oracle: each participant's observations equal those of the same program run alone on a fresh image. states = "
             "schedules, transitions = steps. non-trivial = schedule with >=2 context switches")
